@@ -126,7 +126,7 @@ type UFun struct {
 
 var clauseRe = regexp.MustCompile(`^([A-Za-z0-9_.]+):\s*(.*)$`)
 
-var keywords = map[string]bool{"func": true, "props": true, "safety": true, "requires": true, "ensures": true, "loop": true, "site": true, "inline": true, "trusted": true, "pred": true, "callers": true, "writers": true, "dyncall": true, "chan": true, "cover": true, "pure": true, "ufun": true, "preserves": true, "noauto": true, "package": true, "layout": true, "callsarg": true, "specfn": true, "lemma": true, "apply": true, "assume": true, "raincallers": true, "ghostset": true, "maycallarg": true, "model": true, "given": true, "sitesonly": true, "owned": true}
+var keywords = map[string]bool{"func": true, "props": true, "safety": true, "requires": true, "ensures": true, "loop": true, "site": true, "inline": true, "trusted": true, "pred": true, "callers": true, "writers": true, "dyncall": true, "chan": true, "cover": true, "pure": true, "ufun": true, "preserves": true, "noauto": true, "package": true, "layout": true, "callsarg": true, "specfn": true, "lemma": true, "apply": true, "assume": true, "raincallers": true, "ghostset": true, "maycallarg": true, "model": true, "given": true, "sitesonly": true, "owned": true, "intx": true}
 
 func loadContracts(root string) (*Contracts, error) {
 	cs := &Contracts{Funcs: map[string]*FuncContract{}, Preds: map[string]*Pred{}, UFuns: map[string]*UFun{}, Lemmas: map[string]*Lemma{}}
@@ -467,7 +467,10 @@ func (cs *Contracts) parseFile(path, pkg string) error {
 				return fmt.Errorf("%s:%d: bad owned", path, d.line)
 			}
 			cs.WLs = append(cs.WLs, &Whitelist{Kind: "owned", Label: head[0], Target: head[1], Allowed: splitList(rest[i+1:]), Props: props, Pkg: pkg, File: path, Line: d.line})
-		case "callers", "writers", "raincallers":
+		case "callers", "writers", "raincallers", "intx":
+			// intx <label> <m1,m2,...> : opener, opener   (rain module): every call of one of the
+			// methods is made inside a function literal that is handed directly to an opener (or
+			// in a function that is only ever called from such literals)
 			// callers <label> <target> : a, b, c        (whole program, dependencies included)
 			// raincallers <label> <target> : a, b, c    (functions of the rain module only)
 			rainOnly := kw == "raincallers"
